@@ -94,6 +94,8 @@ def mapCols (f : Nat → Nat) : Expr → Expr
   | .isNull n e => .isNull n (mapCols f e)
   | .between n e lo hi => .between n (mapCols f e) (mapCols f lo) (mapCols f hi)
   | .inList n e xs => .inList n (mapCols f e) (mapColsList f xs)
+  | .caseWhen parts => .caseWhen (mapColsList f parts)
+  | .caseOf x parts => .caseOf (mapCols f x) (mapColsList f parts)
 def mapColsList (f : Nat → Nat) : List Expr → List Expr
   | [] => []
   | e :: es => mapCols f e :: mapColsList f es
@@ -115,6 +117,8 @@ def cols : Expr → List Nat
   | .isNull _ e => cols e
   | .between _ e lo hi => cols e ++ (cols lo ++ cols hi)
   | .inList _ e xs => cols e ++ colsList xs
+  | .caseWhen parts => colsList parts
+  | .caseOf x parts => cols x ++ colsList parts
 def colsList : List Expr → List Nat
   | [] => []
   | e :: es => cols e ++ colsList es
